@@ -14,8 +14,10 @@
    A "Symbols" trace (hdr.tree = one run) records convert_greek_and_symbols(text) the same way.  *)
 EXTENDS Omml, Json, IOUtils, TLCExt
 
-\* IOEnv is not constant-level: the file would be re-read at every use, so the trace is copied
-\* into the state once (TraceInit) and everything else reads the variable tr
+\* A definition  Traces == JsonDeserialize(IOEnv.TRACE_FILE)  is re-evaluated (the file re-parsed) at
+\* every use -- measured: 75 ms per trace.  So the file is parsed ONCE into TLC register 7 while the
+\* initial states are computed (-workers 1), each trace is copied into the state variable tr, and
+\* everything else reads tr (measured: 400 traces in under a second).
 VARIABLES tid, l, tr, pat
 tvars == <<tid, l, tr, pat>>
 
@@ -36,8 +38,9 @@ TraceAgain   == IsEvent("Again") /\ Ev.out2 = Ev.out
 TraceDocx    == IsEvent("Docx") /\ SameOrAbsent(Ev.doc, Ev.out)
 TracePptx    == IsEvent("Pptx") /\ SameOrAbsent(Ev.ppt, Ev.out)
 
-TraceInit == LET T == JsonDeserialize(IOEnv.TRACE_FILE) IN
-             \E i \in 1..Len(T) : tid = i /\ l = 1 /\ tr = T[i] /\ pat = Pattern(T[i].hdr.tree)
+TraceInit == /\ TLCSet(7, JsonDeserialize(IOEnv.TRACE_FILE))
+             /\ \E i \in 1..Len(TLCGet(7)) :
+                   tid = i /\ l = 1 /\ tr = TLCGet(7)[i] /\ pat = Pattern(TLCGet(7)[i].hdr.tree)
 TraceNext == TraceTotal \/ TraceShape \/ TraceBalance \/ TraceAgain \/ TraceDocx \/ TracePptx
 TraceSpec == TraceInit /\ [][TraceNext]_tvars
 
